@@ -156,7 +156,7 @@ func register(id, level, explanation, notDecided string, run func(c *Check)) {
 // addedClauses: what the rules of rules_extra.go (and the extensions of existing rules made for seeded changes) decide.
 var addedClauses = map[string]string{
 	"C01": "(g1) the only host ever left out of the freeze is the old master, and only for an automatic request that moves away from exactly that host.",
-	"C02": "(RELEASE) a fenced master is taken offline BEFORE its semi-sync is disabled, so a commit blocked on an acknowledgement is cut, never acknowledged; (FENCE-OLD) nothing is promoted while an alive old master could not be made read-only unless the request's transition is 'failover' (an unset transition counts as a planned switch), and that rejection is recorded.",
+	"C02": "(NOLOSS) nothing is promoted before the catch-up wait on it answered true without error, whichever host was chosen; (RELEASE) a fenced master is taken offline BEFORE its semi-sync is disabled, so a commit blocked on an acknowledgement is cut, never acknowledged; (FENCE-OLD) nothing is promoted while an alive old master could not be made read-only unless the request's transition is 'failover' (an unset transition counts as a planned switch), and that rejection is recorded.",
 	"C04": "(ADJUST) the master adjustment reports success only if BOTH the wait count equals the requested one (it did, or setting it succeeded) and the plugin is on (it was, or enabling succeeded); for a zero count, only if it is off.",
 	"C06": "(WRITERS) writers are judged per call chain, so the filing helper using an overwriting set is reported although start/fail bookkeeping legitimately reach the same write site.",
 	"C07": "(REFREEZE) = C01.g1's filter gates: on a resumed failover the recorded master is the new one and is frozen like everybody else; (MARK) = C11.ORDER: marking publishes the list without exactly the marked host before the mark is created, so a crash between the two writes leaves a list the successor can approve with.",
@@ -177,7 +177,7 @@ var notDecidedOverride = map[string]string{
 
 var globalAssumptions = []string{
 	"A1: SQL statements are classified from the repository's DefaultQueries table; per-deployment `queries:` overrides are out of scope",
-	"A2: the host registry is stable during one manager iteration for hosts present in that iteration's state map",
+	"A2: a registry handle of a host present in the iteration's first state map stays valid during that iteration; the two state maps are NOT assumed to have the same keys (two reads of a concurrently refreshed registry)",
 	"A3: mysync's own packages make no calls through reflect/unsafe/cgo (asserted by scanning imports on each run)",
 	"A4: go/packages, go/types, go/ssa and the VTA call graph are sound for such code",
 	"A5: one App per process; dev_mode is off (emulateError folds to false; checked on each run)",
